@@ -422,8 +422,11 @@ func c18SinglePass(c *an.Ctx, fn *ssa.Function) {
 	}
 	var reps []rep
 	var all []ssa.Instruction
-	for _, m := range familyOf(c.P, fn, 2) {
+	fam := familyOf(c.P, fn, 2)
+	inFam := map[*ssa.Function]bool{}
+	for _, m := range fam {
 		all = append(all, instrsOf(m)...)
+		inFam[m] = true
 	}
 	each := func(f func(ssa.Instruction)) {
 		for _, in := range all {
@@ -473,6 +476,40 @@ func c18SinglePass(c *an.Ctx, fn *ssa.Function) {
 			return derived(x.X, seen)
 		case *ssa.BinOp:
 			return derived(x.X, seen) || derived(x.Y, seen)
+		case *ssa.Parameter:
+			// a helper of the family: what its callers pass
+			h := x.Parent()
+			if h == nil || h == fn || !inFam[h] {
+				return false
+			}
+			idx := -1
+			for i, p := range h.Params {
+				if p == x {
+					idx = i
+				}
+			}
+			for _, m := range fam {
+				for _, cs := range callsTo(m, h) {
+					if idx >= 0 && idx < len(cs.Common().Args) && derived(cs.Common().Args[idx], seen) {
+						return true
+					}
+				}
+			}
+		case *ssa.Call:
+			// the result of a helper of the family: what it returns
+			if h := x.Call.StaticCallee(); h != nil && inFam[h] && h != fn {
+				found := false
+				an.Instrs(h, func(in ssa.Instruction) {
+					if ret, ok := in.(*ssa.Return); ok && !found {
+						for i := range ret.Results {
+							if derived(an.RetVal(ret, i), seen) {
+								found = true
+							}
+						}
+					}
+				})
+				return found
+			}
 		case *ssa.UnOp:
 			if x.Op == token.MUL {
 				// a local variable cell: any value stored into it
